@@ -59,6 +59,7 @@ type ConcState struct {
 // SliceFact: the value is Base[Lo:Hi] (Base a slice parameter of the explored function).
 type SliceFact struct {
 	Base   ssa.Value
+	Key    string // for values that are not parameters (a field of one): its rendering
 	Lo, Hi int64
 }
 
@@ -429,6 +430,8 @@ type ConcCfg struct {
 	MaxDepth int
 	// InitFields: what integer/boolean fields of objects reachable from the parameters hold on entry.
 	InitFields []FieldVal
+	// SliceLenOf does the same for a string/slice read from a field (identified by its rendering, e.g. "ec.File").
+	SliceLenOf func(desc string) (int64, bool)
 	// Fork lets a rule split the path after an instruction that was not explored inline (an opaque call, the Extract of
 	// its result): one successor per alternative, each with the given facts about values and its own event.
 	Fork      func(in ssa.Instruction, st *ConcState) []ConcAlt
@@ -927,7 +930,7 @@ func ConcPaths(fn *ssa.Function, cfg ConcCfg) (seqs []string, truncated bool) {
 						if st.slices == nil {
 							st.slices = map[ssa.Value]SliceFact{}
 						}
-						st.slices[x] = SliceFact{Base: f.Base, Lo: lo, Hi: hi}
+						st.slices[x] = SliceFact{Base: f.Base, Key: f.Key, Lo: lo, Hi: hi}
 					}
 				}
 			case *ssa.Extract:
@@ -1213,6 +1216,42 @@ func ConcPaths(fn *ssa.Function, cfg ConcCfg) (seqs []string, truncated bool) {
 			case *ssa.Jump:
 				enter(blk, blk.Succs[0], ev, stack, st)
 				return
+			}
+			if cfg.SliceLenOf != nil {
+				if v, isV := in.(ssa.Value); isV {
+					isLoad := false
+					switch y := in.(type) {
+					case *ssa.Field:
+						isLoad = true
+					case *ssa.UnOp:
+						_, fa := y.X.(*ssa.FieldAddr)
+						isLoad = y.Op == token.MUL && fa
+					}
+					if isLoad {
+						switch t := types.Unalias(v.Type()).Underlying().(type) {
+						case *types.Slice:
+							_ = t
+						case *types.Basic:
+							if t.Kind() != types.String {
+								isLoad = false
+							}
+						default:
+							isLoad = false
+						}
+					}
+					if isLoad {
+						if _, has := st.SliceOf(v); !has {
+							d := st.Desc(v)
+							if n, ok := cfg.SliceLenOf(d); ok {
+								st = st.clone()
+								if st.slices == nil {
+									st.slices = map[ssa.Value]SliceFact{}
+								}
+								st.slices[v] = SliceFact{Key: d, Lo: 0, Hi: n}
+							}
+						}
+					}
+				}
 			}
 			if cfg.Fork != nil {
 				if alts := cfg.Fork(in, st0); len(alts) > 0 {
